@@ -70,6 +70,8 @@ class Env:
         self.injected = []
         self.nstep_ok = 0
         self.active = True
+        self.energy_fault = False  # a non-finite / jumping energy has been returned at a tree leaf
+        self.steps_after_energy_fault = 0
 
     def pick(self, allowed):
         if not self.active or self.left <= 0:
@@ -89,6 +91,8 @@ class FSystem:
     def h(self, state):
         k = int(state.pos)
         f = self.env.pick(["nan", "inf", "jump"])
+        if f != "none":
+            self.env.energy_fault = True
         if f == "nan":
             self.env.bad_pos.add(k)
             return math.nan
@@ -117,6 +121,8 @@ class FIntegrator:
         s.pos = state.pos + state.dir
         s.mom = Mom((int(s.pos),))
         self.env.nstep_ok += 1
+        if self.env.energy_fault and self.env.active:
+            self.env.steps_after_energy_fault += 1
         self.env.good.add(int(s.pos))
         return s
 
@@ -233,6 +239,10 @@ def case_transition(rec, kind, depth=2, n_step=3, max_faults=2, fault_kinds=None
         if kind in ("multinomial", "slice"):
             if "jump" in env.injected and not stats.get("diverging") and not flagged:
                 problems.append("energy jump above max_delta_h not recorded as diverging")
+            if ("nan" in env.injected or "inf" in env.injected) and not stats.get("diverging") and not flagged:
+                problems.append("NaN / infinite energy at a tree leaf not recorded as diverging")
+            if env.steps_after_energy_fault:
+                problems.append(f"the trajectory kept integrating ({env.steps_after_energy_fault} more steps) after a NaN / infinite / diverging energy")
             if stats["n_step"] > env.nstep_ok:
                 problems.append(f"n_step statistic {stats['n_step']} exceeds successful steps {env.nstep_ok}")
         # the chain continues: a following fault-free transition from the returned state runs and stays finite
